@@ -16,13 +16,23 @@
                                                             metrics.generations, metrics.evolution with track_population = 1)  -> on_generation
      rosomaxa/src/evolution/simulator.rs                :: EvolutionSimulator::new (no initial operator => Err), run (initial phase)  -> initial
      rosomaxa/src/evolution/strategies/iterative.rs     :: Iterative::run (termination AND quota are both evaluated, then `||`)       -> iloop
+        (parents = selected(); offspring = heuristic.search_many(parents) ++ heuristic.diversify_many(parents);
+         heuristic_ctx.on_generation(offspring, ..) is called in EVERY iteration, whatever the offspring list is)
+     rosomaxa/src/hyper/mod.rs                          :: trait HyperHeuristic (search_many / diversify_many of a USER-SUPPLIED
+        heuristic, EvolutionConfigBuilder::with_heuristic / VrpConfigBuilder::set_heuristic): ORACLE o_hyper = any list of
+        offspring per generation (empty list, duplicates, copies of parents), given what the built-in operators produced
+     rosomaxa/src/termination/mod.rs                    :: trait Termination, a USER-SUPPLIED criterion that reads
+        heuristic_ctx.statistics().generation (placed after the builder's criteria)                            -> TUser
+     rosomaxa/src/population/mod.rs                     :: trait HeuristicPopulation::select of a user-supplied population: any
+        list of parents, also none                                                                             -> o_parents
      rosomaxa/src/lib.rs                                :: TelemetryHeuristicContext::on_generation / on_result
      vrp-core/src/solver/mod.rs                         :: Solver::solve (`cannot find any solution` for an empty population)         -> evolve
      vrp-core/src/solver/search/decompose_search.rs     :: refine_decomposed, the `(0..repeat_count).try_for_each` loop               -> decompose_inner
-   Oracles (theorems quantify over all of them): evaluation results, parent selection, ruin steps, polls made by other
+   Oracles (theorems quantify over all of them): evaluation results, parent selection, the offspring a user-supplied
+   hyper-heuristic hands over, ruin steps, polls made by other
    search steps (exchange_swap_star.rs, decompose_search.rs), wall clock, which individual the population ranks first.
    The population is modelled as the list of everything ever added (the real populations keep a subset of it).
-   run_* entry points used by the correspondence: run_evolve, run_process.  No proofs in this file. *)
+   run_* entry points used by the correspondence: run_evolve, run_process, run_loop (sub-stream c07_loop).  No proofs in this file. *)
 From VRP Require Import Base.Tac Model.Homes.
 Local Open Scope nat_scope.
 
@@ -88,8 +98,9 @@ Definition process (ev : nat -> hsol -> eres) (q : quota) (st : pstate) : option
   end.
 
 (* ------------------------------------------------------------------ termination criteria *)
-(* TOther id: a criterion whose answer is an oracle: MinVariation (id 0), TargetProximity (id 1) *)
-Inductive term := TMaxGen (limit : nat) | TMaxTime | TOther (id : nat).
+(* TOther id: a criterion whose answer is an oracle: MinVariation (id 0), TargetProximity (id 1);
+   TUser limit: a user-supplied Termination that is reached only through the statistics: `statistics().generation >= limit` *)
+Inductive term := TMaxGen (limit : nat) | TMaxTime | TOther (id : nat) | TUser (limit : nat).
 
 (* EvolutionConfigBuilder::get_termination: max_generations, max_time, min_cv = Some (is_sample, sample size / period), target
    proximity; the limit of MaxGeneration is the configured max_generations WHATEVER else is configured *)
@@ -108,15 +119,17 @@ Fixpoint is_termination (ts : list term) (gen : nat) (tm : nat -> bool) (ot : na
   | TMaxGen l :: r => if l <=? gen then (true, tp) else is_termination r gen tm ot tp
   | TMaxTime :: r => if tm tp then (true, S tp) else is_termination r gen tm ot (S tp)
   | TOther i :: r => if ot i tp then (true, S tp) else is_termination r gen tm ot (S tp)
+  | TUser l :: r => if l <=? gen then (true, tp) else is_termination r gen tm ot tp
   end.
 
 (* `termination.estimate(ctx) > initial.quota` (0.05): MaxGeneration gives (gen / limit).min(1) (limit 0: NaN/inf -> 1),
-   MaxTime's share is the oracle `iq` *)
+   MaxTime's share is the oracle `iq`; the user-supplied criterion delegates `estimate` to the criteria it wraps *)
 Definition est_exceeds (ts : list term) (gen : nat) (iq : bool) : bool :=
-  existsb (fun t => match t with TMaxGen l => (l =? 0) || (l <? 20 * gen) | TMaxTime => iq | TOther _ => false end) ts.
+  existsb (fun t => match t with TMaxGen l => (l =? 0) || (l <? 20 * gen) | TMaxTime => iq | TOther _ => false | TUser _ => false end) ts.
 
+(* the first criterion of the list that is a limit on statistics.generation *)
 Fixpoint gen_limit (ts : list term) : option nat :=
-  match ts with [] => None | TMaxGen l :: _ => Some l | _ :: r => gen_limit r end.
+  match ts with [] => None | TMaxGen l :: _ => Some l | TUser l :: _ => Some l | _ :: r => gen_limit r end.
 
 (* ------------------------------------------------------------------ telemetry *)
 Record tele := mkT { t_next : option nat; t_stat_gen : nat; t_metric_gens : nat; t_evolution : list nat }.
@@ -141,6 +154,7 @@ Record econfig := mkC {
   c_max_time : bool;
   c_min_cv : option (bool * nat);   (* ("sample" ?, sample size / period) *)
   c_target : bool;                  (* target proximity configured *)
+  c_user_term : option nat;         (* a user-supplied Termination wrapped around the builder's: `statistics().generation >= limit` *)
   c_init_ops : nat;           (* number of initial operators *)
   c_init_size : nat;          (* initial.max_size *)
   c_fuel : nat                (* bound on loop iterations used ONLY when no generation limit is configured *)
@@ -155,12 +169,16 @@ Record oracles := mkO {
   o_ruin : nat -> nat -> hsol -> list rop;           (* ruin of the j-th parent of generation g *)
   o_search_ev : nat -> nat -> nat -> hsol -> eres;   (* evaluator results inside its recreate *)
   o_skip : nat -> nat -> nat;                        (* quota polls by other steps before offspring j (j = #parents: after the last) *)
-  o_best : list hsol -> nat                          (* index of ranked().next() *)
+  o_best : list hsol -> nat;                         (* index of ranked().next() *)
+  o_hyper : nat -> list hsol -> list hsol -> list hsol  (* what a user-supplied HyperHeuristic hands over in generation g, given the
+                                                          population and the offspring of the built-in search: ANY list *)
 }.
 
 Record estate := mkS { s_pop : list hsol; s_tele : tele; s_polls : nat; s_tpolls : nat }.
 
-Definition cfg_terms (cfg : econfig) : list term := terminations (c_max_gen cfg) (c_max_time cfg) (c_min_cv cfg) (c_target cfg).
+Definition cfg_terms (cfg : econfig) : list term :=
+  terminations (c_max_gen cfg) (c_max_time cfg) (c_min_cv cfg) (c_target cfg)
+  ++ match c_user_term cfg with Some l => [TUser l] | None => [] end.
 
 Fixpoint initial (n idx : nat) (cfg : econfig) (W : oracles) (q : quota) (st : estate) : option estate :=
   match n with
@@ -203,7 +221,8 @@ Definition generation (cfg : econfig) (W : oracles) (q : quota) (st : estate) : 
   match offspring g 0 (o_parents W g (s_pop st)) cfg W q (s_pop st) (s_polls st) with
   | None => None
   | Some (offs, polls) =>
-    let pop := s_pop st ++ offs in
+    (* heuristic_ctx.on_generation(offspring, ..): population.add_all(offspring); telemetry.on_generation(..) - in every iteration *)
+    let pop := s_pop st ++ o_hyper W g (s_pop st) offs in
     Some (mkS pop (on_generation (s_tele st) (match pop with [] => false | _ => true end)) polls (s_tpolls st))
   end.
 
@@ -260,11 +279,11 @@ Fixpoint decompose_inner (repeat : nat) (q : quota) (polls : nat) (inner : nat -
 Definition skip_oracles (init_polls : nat) (gen_polls : list nat) : oracles :=
   mkO (fun _ => false) (fun _ _ => false) (fun _ => false) (fun _ _ _ => EFailure None false false)
       (fun _ _ => []) (fun _ _ _ => []) (fun _ _ _ _ => EFailure None false false)
-      (fun g _ => nth g gen_polls 0) (fun _ => 0).
+      (fun g _ => nth g gen_polls 0) (fun _ => 0) (fun _ _ offs => offs).
 
 Definition run_evolve_cfg (max_gen : nat) (max_time : bool) (min_cv : option (bool * nat)) (target : bool)
            (init_polls : nat) (gen_polls : list nat) (k : option nat) : nat * nat * nat * nat * nat :=
-  let cfg := mkC [] 1 (Some max_gen) max_time min_cv target 4 4 0 in
+  let cfg := mkC [] 1 (Some max_gen) max_time min_cv target None 4 4 0 in
   let q : quota := fun n => counting_quota k (n + init_polls) in
   match evolve cfg (skip_oracles init_polls gen_polls) q with
   | EOk _ st => (0, gens_run (s_tele st), t_metric_gens (s_tele st), length (t_evolution (s_tele st)), s_polls st + init_polls)
@@ -274,6 +293,31 @@ Definition run_evolve_cfg (max_gen : nat) (max_time : bool) (min_cv : option (bo
   end.
 
 Definition run_evolve (max_gen : nat) := run_evolve_cfg max_gen false None false.
+
+(* sub-stream c07_loop: the loop driven with USER-SUPPLIED pieces (scripted hyper-heuristic / population / termination).
+   Per generation g the run itself tells: parents g = how many parents the population selected, mult g = how often the scripted
+   heuristic hands over each offspring of the built-in search (0 = it drops them all), diverse g = how many further solutions it
+   adds (diversify_many), gen_polls g = quota polls made inside the generation.  The plan is abstracted to [] as in run_evolve.
+   result: (code, generations run, metrics.generations, metrics.evolution numbers, polls, individuals ever handed to the population) *)
+Definition loop_oracles (gen_polls parents mult diverse : list nat) : oracles :=
+  mkO (fun _ => false) (fun _ _ => false) (fun _ => false) (fun _ _ _ => EFailure None false false)
+      (fun g pop => seq 0 (Nat.min (nth g parents 0) (length pop)))
+      (fun _ _ _ => []) (fun _ _ _ _ => EFailure None false false)
+      (fun g j => if j =? 0 then nth g gen_polls 0 else 0) (fun _ => 0)
+      (fun g pop offs => flat_map (fun s => repeat s (nth g mult 1)) offs
+                         ++ match pop with [] => [] | h :: _ => repeat h (nth g diverse 0) end).
+
+Definition run_loop (max_gen user_term : option nat) (init_ops init_size : nat) (fuel : nat)
+           (init_polls : nat) (gen_polls parents mult diverse : list nat) (k : option nat)
+  : nat * nat * nat * list nat * nat * nat :=
+  let cfg := mkC [] 1 max_gen false None false user_term init_ops init_size fuel in
+  let q : quota := fun n => counting_quota k (n + init_polls) in
+  match evolve cfg (loop_oracles gen_polls parents mult diverse) q with
+  | EOk _ st => (0, gens_run (s_tele st), t_metric_gens (s_tele st), t_evolution (s_tele st), s_polls st + init_polls, length (s_pop st))
+  | EErr ErrNoSolution => (1, 0, 0, [], 0, 0)
+  | EErr ErrNoInitialMethods => (2, 0, 0, [], 0, 0)
+  | EFuel => (3, 0, 0, [], 0, 0)
+  end.
 
 (* one run of the insertion loop on ids 0..n-1 where every evaluation succeeds into route 0: (inserted, unassigned, polls) *)
 Definition run_process (njobs : nat) (k : option nat) : nat * nat * nat :=
